@@ -1,0 +1,60 @@
+//! Verification hooks (feature `verif-hooks` only; not part of the public API).
+//!
+//! * [`compile_template`] is an in-process entry point doing exactly what
+//!   `handle_template` does with the bytes of one template file, without
+//!   touching the file system or stdout.
+//! * [`before_write`] is a crash point consulted by `write_if_changed`
+//!   right before each physical write.
+use crate::parseresult::show_errors;
+use crate::template::template;
+use std::path::Path;
+use std::sync::atomic::{AtomicI64, Ordering};
+
+/// Parse `buf` as a template called `name`; return the generated rust
+/// code, or the diagnostics that the build script would have printed
+/// (each line prefixed with `cargo:warning=`).
+pub fn compile_template(name: &str, buf: &[u8]) -> Result<String, String> {
+    match template(buf) {
+        Ok((_, t)) => {
+            let mut data = String::new();
+            t.write_rust(&mut data, name).map_err(|e| e.to_string())?;
+            Ok(data)
+        }
+        Err(error) => {
+            let mut out = Vec::new();
+            show_errors(&mut out, buf, &error, "cargo:warning=");
+            Err(String::from_utf8_lossy(&out).into_owned())
+        }
+    }
+}
+
+static CRASH_AT: AtomicI64 = AtomicI64::new(-1);
+static CRASH_KEEP: AtomicI64 = AtomicI64::new(0);
+static WRITES: AtomicI64 = AtomicI64::new(0);
+
+/// Arm the crash point: the `k`:th physical write (counting from 0) will
+/// write only the first `keep` bytes (`-1` = all but the last byte,
+/// `-2` = half) and then abort the process.
+pub fn arm_crash(k: i64, keep: i64) {
+    WRITES.store(0, Ordering::SeqCst);
+    CRASH_KEEP.store(keep, Ordering::SeqCst);
+    CRASH_AT.store(k, Ordering::SeqCst);
+}
+
+/// Number of physical writes attempted since the last `arm_crash`.
+pub fn writes_done() -> i64 {
+    WRITES.load(Ordering::SeqCst)
+}
+
+pub(crate) fn before_write(path: &Path, content: &[u8]) {
+    let n = WRITES.fetch_add(1, Ordering::SeqCst);
+    if n == CRASH_AT.load(Ordering::SeqCst) {
+        let keep = match CRASH_KEEP.load(Ordering::SeqCst) {
+            -1 => content.len().saturating_sub(1),
+            -2 => content.len() / 2,
+            k => (k.max(0) as usize).min(content.len()),
+        };
+        let _ = std::fs::write(path, &content[..keep]);
+        std::process::abort();
+    }
+}
